@@ -230,18 +230,18 @@ def C09_5(ctx, facts):
 ACCEPT_TABLE = {
     r"^server::Serving::poll_once\|panic\|panic_fmt": ("guarded", "unreachable!(\"state must still be accepting\"): project_replace is applied to the state that the enclosing match arm just proved to be Making",
                                                        lambda facts, s: _guard_making(facts, s)),
-    r"^<stream::tcp::TcpStream as info::HasConnectionInfo>::info\|result-unwrap\|expect\|local_addr": ("by-construction", "getsockname(2) on a valid connected/accepted socket fd does not fail because of the peer"),
-    r"^<stream::tcp::TcpStream as info::HasConnectionInfo>::info\|result-unwrap\|expect\|peer_addr": ("guarded", "server-side streams carry the remote address given by accept(): peer_addr() is only consulted when `remote` is None",
+    r"^<stream::tcp::TcpStream as info::HasConnectionInfo>::info\|result-unwrap\|expect\|local_addr is available for stream\|<=TcpStream::local_addr$": ("by-construction", "getsockname(2) on a valid connected/accepted socket fd does not fail because of the peer"),
+    r"^<stream::tcp::TcpStream as info::HasConnectionInfo>::info\|result-unwrap\|expect\|peer_addr is available for stream\|<=TcpStream::peer_addr$": ("guarded", "server-side streams carry the remote address given by accept(): peer_addr() is only consulted when `remote` is None",
                                                                                                      lambda facts, s: _guard_remote_none(facts, s)),
-    r"^<stream::unix::UnixStream as info::HasConnectionInfo>::info\|result-unwrap\|expect\|peer_addr": ("by-construction", "UnixStream::peer_addr returns the stored remote address for accepted streams (Some(remote) is always passed by poll_accept; checked by C09.1 closure rule); conversion of the stored value cannot fail"),
-    r"^<stream::unix::UnixStream as info::HasConnectionInfo>::info\|result-unwrap\|expect\|local_addr": ("by-construction", "the local address is the listener's own path: a listener-level condition, not a per-connection one"),
+    r"^<stream::unix::UnixStream as info::HasConnectionInfo>::info\|result-unwrap\|expect\|peer_addr is available for unix stream\|<=UnixStream::peer_addr$": ("by-construction", "UnixStream::peer_addr returns the stored remote address for accepted streams (Some(remote) is always passed by poll_accept; checked by C09.1 closure rule); conversion of the stored value cannot fail"),
+    r"^<stream::unix::UnixStream as info::HasConnectionInfo>::info\|result-unwrap\|expect\|local_addr is available for unix stream\|<=UnixStream::local_addr$": ("by-construction", "the local address is the listener's own path: a listener-level condition, not a per-connection one"),
     r"^<server::conn::tls::info::TlsConnectionInfoReciever.*\|": ("by-construction", "receiver state of the TLS info channel"),
-    r"^polled_span::\{closure#0\}\|option-unwrap\|expect\|Missing ID": ("by-construction", "tracing span bookkeeping, independent of connection data"),
+    r"^polled_span::\{closure#0\}\|option-unwrap\|expect\|Missing ID; this is a bug\|<=Span::id$": ("by-construction", "tracing span bookkeeping, independent of connection data"),
     r"^<server::conn::auto::ReadVersion as futures_core::Future>::poll\|slice-index\|index": ("guarded", "indices are len_before <= filled().len() <= 24 = HTTP2_PREFIX.len(): the loop runs only while filled().len() < HTTP2_PREFIX.len() and ReadBuf never exceeds its 24-byte capacity (extent agreement is checked by C08.2)"),
     r"^<rewind::Rewind as hyper::rt::Read>::poll_read\|(slice-index|bytes-range)": ("guarded", "n = min(prefix.len(), remaining): checked by C08.5"),
     r"^rewind::put_slice\|": ("guarded", "assert!(remaining >= slice.len()) with slice.len() = n <= remaining (C08.5)"),
     r"^<bridge::io::TokioIo as tokio::io::AsyncRead>::poll_read\|assert-Overflow": ("by-construction", "filled + sub_filled <= capacity of the caller's buffer (both are lengths within one allocation)"),
-    r"^<server::conn::tls::TlsStream as info::HasConnectionInfo>::info\|option-unwrap\|expect\|connection info available": ("by-construction", "info() on a server TlsStream is taken when the stream is accepted / when its service is made (poll_once, Stream::new, make_service_ref(&stream)), i.e. before the stream is first polled: tokio_rustls::Accept::get_ref() is Some until the handshake future has completed"),
+    r"^<server::conn::tls::TlsStream as info::HasConnectionInfo>::info\|option-unwrap\|expect\|connection info available without tls handshake\|<=Option::map$": ("by-construction", "info() on a server TlsStream is taken when the stream is accepted / when its service is made (poll_once, Stream::new, make_service_ref(&stream)), i.e. before the stream is first polled: tokio_rustls::Accept::get_ref() is Some until the handshake future has completed"),
     r"^server::conn::tls::.*\|option-unwrap\|": ("by-construction", "TLS stream state machine (handshake state), not peer data"),
 }
 
